@@ -382,6 +382,18 @@ class Run:
                 return openf[0]
         return None
 
+    def replay(self, family, module, cfg, path, dfs=False, timeout=900):
+        """Re-validate a recorded (rejected) trace from /verif/replays."""
+        lines = [ln for ln in open(path).read().splitlines() if ln.strip()]
+        if lines and json.loads(lines[0]).get("e") == "header":
+            lines = lines[1:]
+        tf = self.tmp("replay.ndjson")
+        with open(tf, "w") as fh:
+            fh.write("\n".join(lines) + "\n")
+        self.evaluations += 1
+        self.distinct.update({"replay", path})
+        return self.validate(family, module, cfg, tf, label="replay", dfs=dfs, timeout=timeout)
+
     # ------------------------------------------------------------------ evidence
     def write_evidence(self, rule, exhaustive=False):
         os.makedirs(EVIDENCE, exist_ok=True)
